@@ -189,7 +189,7 @@ func c12Envelope(c *mc.Ctx, k c12Env, withStream bool) {
 				bad("long-lived-writer", "13 headers written through one buffered writer (Flush after each) delivered %d bytes, want %d; first difference at %d", len(lsink.Got), len(all), firstDiff(lsink.Got, all))
 				return
 			}
-			lr := bufiox.NewDefaultReader(NewEnvReader(all, k.Env))
+			lr := bufiox.NewDefaultReader(NewEnvReader(all, k.Env).Src())
 			lbr := thrift.NewBufferReader(lr)
 			for i := 0; i < 13; i++ {
 				gn, gt, gs, err := lbr.ReadMessageBegin()
@@ -218,7 +218,7 @@ func c12Envelope(c *mc.Ctx, k c12Env, withStream bool) {
 		}
 		check(bufiox.NewBytesReader(in), "BytesReader")
 		if withStream {
-			check(bufiox.NewDefaultReader(NewEnvReader(in, k.Env)), "DefaultReader")
+			check(bufiox.NewDefaultReader(NewEnvReader(in, k.Env).Src()), "DefaultReader")
 		}
 	})
 	if pi != nil {
@@ -554,7 +554,7 @@ func init() {
 					var err error
 					pi := mc.Try(func() {
 						if k.Stream {
-							r := bufiox.NewDefaultReader(NewEnvReader(in, k.Env))
+							r := bufiox.NewDefaultReader(NewEnvReader(in, k.Env).Src())
 							b := thrift.NewBufferReader(r)
 							_, _, _, err = b.ReadMessageBegin()
 						} else {
